@@ -4,6 +4,7 @@ go 1.23
 
 require (
 	github.com/golang/protobuf v1.4.3
+	github.com/gorilla/websocket v1.4.1
 	github.com/hashicorp/memberlist v0.2.2
 	github.com/vx-labs/cluster v1.7.10
 	github.com/vx-labs/commitlog v1.2.4
@@ -25,7 +26,6 @@ require (
 	github.com/gogo/protobuf v1.2.1 // indirect
 	github.com/google/btree v1.0.0 // indirect
 	github.com/google/uuid v1.1.2 // indirect
-	github.com/gorilla/websocket v1.4.1 // indirect
 	github.com/hashicorp/errwrap v1.0.0 // indirect
 	github.com/hashicorp/go-immutable-radix v1.0.0 // indirect
 	github.com/hashicorp/go-msgpack v0.5.3 // indirect
